@@ -202,7 +202,7 @@ def check(model, rep):
     ve = M(robot, 'velocityAtEndEffector')
     il = Inliner(ve)
     r = il.returns()
-    v = il.expand(r[0].value) if r else None
+    v = il.expand(r[0].value) if len(r) == 1 else None
     ok = isinstance(v, ast.BinOp) and isinstance(v.op, ast.MatMult) and norm_text(v.left).startswith('self.jacobian(') and ve.params[1] in norm_text(v.right) \
         and 'jacobian' not in norm_text(v.right)
     rep.ob('R06.2', ve, 'jacobian(...) @ joint rates', bool(ok), 'tool twist is not jacobian @ rates: ' + (norm_text(v)[:120] if v is not None else '?'))
